@@ -5,9 +5,13 @@ import MidnightZK.Proofs.C06.Group
 import MidnightZK.Proofs.C06.EdAssoc
 import MidnightZK.Proofs.C06.ForeignWiring
 import MidnightZK.Proofs.C06.Incomplete
+import MidnightZK.Proofs.C06.Svdw
+import MidnightZK.Proofs.C06.MapToCurve
 import MidnightZK.Model.C06.Edwards
 import MidnightZK.Model.C06.Weierstrass
+import MidnightZK.Model.C06.Htc
 import MidnightZK.Gen.C06Gates
+import MidnightZK.Gen.C06Htc
 /-!
 # C06 — elliptic-curve gadgets compute the group law and accept nothing else
 
@@ -518,5 +522,321 @@ theorem foreign_curve_constants :
     Gen.secpA = 0 ∧ Gen.secpB = 7 ∧ Gen.blsA = 0 ∧ Gen.blsB = 4 ∧
     Gen.secpEcGatePolys = List.replicate 4 (Gen.secpModuli.length + 1) ∧
     Gen.blsEcGatePolys = List.replicate 4 (Gen.blsModuli.length + 1) := by decide +kernel
+
+/-! ## `mul_by_constant`: digit recomposition and branch selection -/
+
+/-- Two digits: `(d1 << 64) | d0 = d1·2^64 + d0` (no bit is shifted out, the `|` is an addition). -/
+theorem foldDigits_two (d0 d1 : Nat) (h0 : d0 < 2 ^ 64) (h1 : d1 < 2 ^ 64) :
+    WCurve.foldDigitsU128 [d0, d1] = d1 * 2 ^ 64 + d0 := by
+  unfold WCurve.foldDigitsU128
+  simp only [List.reverse_cons, List.reverse_nil, List.nil_append, List.cons_append,
+    List.foldl_cons, List.foldl_nil, Nat.zero_shiftLeft, Nat.zero_mod, Nat.zero_or]
+  have e1 : (d1 <<< 64) % 2 ^ 128 = d1 <<< 64 := by
+    rw [Nat.shiftLeft_eq]; apply Nat.mod_eq_of_lt; omega
+  rw [e1, ← Nat.shiftLeft_add_eq_or_of_lt h0, Nat.shiftLeft_eq]
+
+/-- **`mul_by_constant`, digit recomposition** (`to_u64_digits().iter().rev().fold(0u128,
+|acc, limb| (acc << 64) | limb)`, mirrored with the `u128` truncation of `<<` and the bitwise
+`|`): for every constant below `2^128` the rebuilt `u128` is the constant — whatever the number
+of digits (0, 1 or 2). Seed C06-3 (digits folded in the wrong order) breaks exactly this. -/
+theorem mul_by_constant_digits (s : Nat) (h : s < 2 ^ 128) :
+    WCurve.foldDigitsU128 (WCurve.u64Digits 3 s) = s := by
+  by_cases h0 : s = 0
+  · subst h0; decide
+  · by_cases hs : s < 2 ^ 64
+    · have hd : s / 2 ^ 64 = 0 := Nat.div_eq_of_lt hs
+      have : WCurve.u64Digits 3 s = [s] := by
+        unfold WCurve.u64Digits
+        rw [if_neg h0, hd, Nat.mod_eq_of_lt hs]
+        unfold WCurve.u64Digits
+        rw [if_pos rfl]
+      rw [this]
+      simp [WCurve.foldDigitsU128]
+    · have hq : s / 2 ^ 64 < 2 ^ 64 := by omega
+      have hq0 : s / 2 ^ 64 ≠ 0 := by omega
+      have hqq : s / 2 ^ 64 / 2 ^ 64 = 0 := Nat.div_eq_of_lt hq
+      have : WCurve.u64Digits 3 s = [s % 2 ^ 64, s / 2 ^ 64] := by
+        unfold WCurve.u64Digits
+        rw [if_neg h0]
+        unfold WCurve.u64Digits
+        rw [if_neg hq0, hqq, Nat.mod_eq_of_lt hq]
+        unfold WCurve.u64Digits
+        rw [if_pos rfl]
+      rw [this, foldDigits_two _ _ (Nat.mod_lt _ (by decide)) hq]
+      omega
+
+/-- **Branch selection covers every constant**: `bits() ≤ 128` iff the constant is below `2^128`,
+so every constant takes exactly one branch, the `u128` branch multiplies by the constant itself
+and the windowed branch receives the constant unchanged. -/
+theorem mul_by_constant_branch_cover (s : Nat) :
+    (s < 2 ^ 128 ∧ WCurve.mulConstBranch s = .u128 s) ∨
+    (2 ^ 128 ≤ s ∧ WCurve.mulConstBranch s = .windowed s) := by
+  unfold WCurve.mulConstBranch WCurve.bitLen
+  by_cases h0 : s = 0
+  · subst h0; left; decide
+  · have hl : s.log2 < 128 ↔ s < 2 ^ 128 := Nat.log2_lt h0
+    rw [if_neg h0]
+    by_cases hs : s < 2 ^ 128
+    · left
+      have : s.log2 + 1 ≤ 128 := by have := hl.mpr hs; omega
+      rw [if_pos this, mul_by_constant_digits s hs]
+      exact ⟨hs, rfl⟩
+    · right
+      have : ¬ (s.log2 + 1 ≤ 128) := by
+        intro h; apply hs; apply hl.mp; omega
+      rw [if_neg this]
+      exact ⟨by omega, rfl⟩
+
+/-- The boundary constants of the two branches (and the digit boundary), evaluated. -/
+example :
+    [2 ^ 64 - 1, 2 ^ 64, 2 ^ 64 + 1, 2 ^ 127, 2 ^ 128 - 1].all
+      (fun s => WCurve.mulConstBranch s == .u128 s) = true ∧
+    [2 ^ 128, 2 ^ 128 + 1].all (fun s => WCurve.mulConstBranch s == .windowed s) = true := by
+  decide +kernel
+
+/-! ## Map-to-curve and hash-to-curve on Jubjub
+
+`mtc_params.rs`, `mtc_cpu.rs` (the CPU reference that defines `hash_to_curve`), `mtc.rs` (the
+in-circuit gadget: the same 36 steps on `base_field` instructions). -/
+
+/-- The parameters as regenerated from `mtc_params.rs`. -/
+def jubHtc : HtcParams :=
+  { p := Gen.nativeModulus, z := Gen.svdwZ, a := Gen.svdwA, b := Gen.svdwB, j := Gen.montJ,
+    k := Gen.montK }
+
+/-- The native curve as dumped from the gates. -/
+def jubE : EdCurve :=
+  ⟨Gen.nativeModulus, Gen.jubD, Gen.jubR, Gen.jubCofactor, Gen.jubScalarBits⟩
+
+/-- **The SvdW constants satisfy their defining equations** (`Z`, `A`, `B` parsed from the
+source; `c1 … c4` recomputed by the translator and compared with `C::c1()` … of the running code
+by the harness): `c1 = g(Z)`, `2 c2 = −Z`, `c3² = −g(Z)(3Z² + 4A)` with `c3` the even root
+(`sgn0(c3) = 0`), `c4 (3Z² + 4A) = −4 g(Z)`, and the non-degeneracy `g(Z) ≠ 0`, `3Z² + 4A ≠ 0`
+asserted by the repository's `test_params`. -/
+theorem svdw_constants_spec :
+    Gen.svdwC1 = jubHtc.g Gen.svdwZ ∧
+    (2 * Gen.svdwC2 + Gen.svdwZ) % Gen.nativeModulus = 0 ∧
+    (Gen.svdwC3 * Gen.svdwC3 + Gen.svdwC1 * jubHtc.den) % Gen.nativeModulus = 0 ∧
+    Gen.svdwC3 % 2 = 0 ∧ Gen.svdwC3 < Gen.nativeModulus ∧
+    (Gen.svdwC4 * jubHtc.den + 4 * Gen.svdwC1) % Gen.nativeModulus = 0 ∧
+    Gen.svdwC4 < Gen.nativeModulus ∧ Gen.svdwC2 < Gen.nativeModulus ∧
+    Gen.svdwC1 ≠ 0 ∧ jubHtc.den ≠ 0 ∧ Gen.svdwC4 ≠ 0 := by decide +kernel
+
+/-- The executable model derives the same constants from `Z`, `A`, `B` alone (its own inverse
+and Tonelli–Shanks square root), i.e. the model's `c1() … c4()` are the kernel-checked ones. -/
+theorem svdw_model_constants :
+    jubHtc.c1 = Gen.svdwC1 ∧ jubHtc.c2 = Gen.svdwC2 ∧ jubHtc.c3 = some Gen.svdwC3 ∧
+    jubHtc.c4 = Gen.svdwC4 := by decide +kernel
+
+/-- **The exceptional inputs exist for Jubjub**: `c1 = g(Z)` and `−1` are squares of the native
+field, so `c1 u² = 1` and `c1 u² = −1` have two solutions each; the model computes the four of
+them, each makes `tv1 · tv2 = 0`, and on each the model's `map_to_curve` returns a point of the
+curve (what the harness feeds to the CPU reference and to the circuit). -/
+theorem svdw_exceptional_inputs_exist :
+    (Gen.svdwSqrtC1 * Gen.svdwSqrtC1) % Gen.nativeModulus = Gen.svdwC1 ∧
+    (Gen.sqrtMinusOne * Gen.sqrtMinusOne + 1) % Gen.nativeModulus = 0 ∧
+    jubHtc.exceptionalInputs.length = 4 ∧
+    (jubHtc.exceptionalInputs.all fun u =>
+      let w := jubHtc.fmul (jubHtc.fmul u u) jubHtc.c1
+      (w == 1 || w == Gen.nativeModulus - 1) &&
+      (match jubHtc.mapToCurve jubE u with
+       | some P => jubE.onCurve P
+       | none => false)) = true := by decide +kernel
+
+/-- Constants of the two rational maps: `3·(J/3) = J`, `K² A = 1 − J²/3`,
+`K³ B = (2J³ − 9J)/27`, `K = −(J + 2)` (`a = −1`), `K d = J − 2` with `d` the parameter found
+in the gates of the native chip, and `K ≠ 0`. -/
+theorem montgomery_constants_spec :
+    let p := Gen.nativeModulus
+    let t := Gen.montJThird
+    (3 * t) % p = Gen.montJ ∧
+    (Gen.montK * Gen.montK * Gen.svdwA + 3 * t * t) % p = 1 ∧
+    (Gen.montK * Gen.montK * Gen.montK * Gen.svdwB + t) % p = (2 * t * t * t) % p ∧
+    (Gen.montK + Gen.montJ + 2) % p = 0 ∧
+    (Gen.montK * Gen.jubD + 2) % p = Gen.montJ % p ∧ Gen.montK % p ≠ 0 := by decide +kernel
+
+/-- `g` has the root `ρ = J/(3K)` (image of the point of order two) and no other: the cofactor
+`x² + ρx + ρ² + A` has a non-residue discriminant; `g(x1(u)) = 0` or `g(x2(u)) = 0` would need
+`c3² − 4c1(c2 − ρ)²` to be a square, and it is a non-residue; `g(c2) ≠ 0` (Euler criterion,
+kernel-evaluated). So the in-circuit `is_square` never sees `0` inside `map_to_curve`. -/
+theorem jubjub_svdw_gx_nonzero_euler :
+    let p := Gen.nativeModulus
+    let ρ := Gen.svdwRho
+    jubHtc.g ρ = 0 ∧
+    powMod (ρ * ρ + 4 * (p - (ρ * ρ + Gen.svdwA) % p)) ((p - 1) / 2) p = p - 1 ∧
+    powMod (Gen.svdwC3 * Gen.svdwC3 +
+        4 * (p - (Gen.svdwC1 * (jubHtc.fsub Gen.svdwC2 ρ) % p * (jubHtc.fsub Gen.svdwC2 ρ)) % p))
+      ((p - 1) / 2) p = p - 1 ∧
+    jubHtc.g Gen.svdwC2 ≠ 0 ∧ jubHtc.isSquare (jubHtc.g Gen.svdwC2) = true := by decide +kernel
+
+/-- **The CPU reference and the circuit are the same listing**: the kinds of the 35 numbered
+steps of `mtc_cpu.rs: svdw_map_to_curve` and of `mtc.rs: svdw_map_to_weierstrass`, extracted from
+the sources, coincide, and step 6 is `inv0` on both sides (seed C06-4 turns the CPU side into a
+panicking `invert().unwrap()`). -/
+theorem svdw_step_kinds_agree :
+    Gen.svdwCpuStepKinds = Gen.svdwCircStepKinds ∧ Gen.svdwCpuStepKinds.length = 35 ∧
+    Gen.svdwCpuStepKinds[5]? = some "inv0" ∧ Gen.svdwCircStepKinds[5]? = some "inv0" := by
+  decide +kernel
+
+/-- **Product identity of the SvdW candidates**: for `tv1 · tv2 ≠ 0`,
+`D⁴ tv1⁶ g(x3) = (8 c3 tv2³)² g(x1) g(x2)` with `D = 3Z² + 4A` — `g(x1) g(x2) g(x3)` is a square
+up to squares. -/
+theorem svdw_candidates_product {A B Z c1 c2 c3 c4 : F} (h : SvdwConsts A B Z c1 c2 c3 c4)
+    (u i : F) (hi : i * ((1 - u * u * c1) * (1 + u * u * c1)) = 1) :
+    let tv1 := 1 - u * u * c1
+    let tv2 := 1 + u * u * c1
+    let tv4 := u * tv1 * i * c3
+    (3 * Z * Z + 4 * A) ^ 4 * tv1 ^ 6 * wg A B ((tv2 * tv2 * i) * (tv2 * tv2 * i) * c4 + Z)
+      = (8 * c3 * tv2 ^ 3) ^ 2 * (wg A B (c2 - tv4) * wg A B (c2 + tv4)) :=
+  svdw_product_identity h u i hi
+
+/-- **At least one of the three candidates has a square `g`**, for EVERY `u` including the
+exceptional ones (`i = inv0(tv1 · tv2)`): the classical argument (`hmul`: in a finite field the
+product of two non-squares is a square) on ordinary inputs, and `x1 = x2 = −Z/2`, `x3 = Z` with
+`g(Z)` or `g(−Z/2)` a square on the exceptional ones. -/
+theorem svdw_candidates_one_is_square {A B Z c1 c2 c3 c4 : F} (h : SvdwConsts A B Z c1 c2 c3 c4)
+    (hmul : ∀ a b : F, ¬ IsSq a → ¬ IsSq b → IsSq (a * b))
+    (hexc : IsSq (wg A B Z) ∨ IsSq (wg A B c2))
+    (u i : F)
+    (hinv : (1 - u * u * c1) * (1 + u * u * c1) ≠ 0 → i * ((1 - u * u * c1) * (1 + u * u * c1)) = 1)
+    (hzero : (1 - u * u * c1) * (1 + u * u * c1) = 0 → i = 0) :
+    let tv1 := 1 - u * u * c1
+    let tv2 := 1 + u * u * c1
+    let tv4 := u * tv1 * i * c3
+    IsSq (wg A B (c2 - tv4)) ∨ IsSq (wg A B (c2 + tv4)) ∨
+      IsSq (wg A B ((tv2 * tv2 * i) * (tv2 * tv2 * i) * c4 + Z)) :=
+  svdw_one_candidate_square h hmul hexc u i hinv hzero
+
+/-- Non-vacuity over ℚ: `y² = x³ − 3x + 3`, `Z = 1` (`g(Z) = 1`, `3Z² + 4A = −9`, `c3 = 3`). -/
+example : SvdwConsts (F := Rat) (-3) 3 1 1 (-1/2) 3 (4/9) :=
+  ⟨by unfold wg; grind, by grind, by grind, by grind, by grind, by grind, by grind⟩
+
+/-- **`svdw_map_to_curve` lands on the curve for every input** (exceptional ones included, with
+the `inv0` convention): with `e1`, `e2` as steps 15 and 21 compute them, the `x` selected by steps
+27–28 has a square `g(x)`, so `gx.sqrt().unwrap()` never panics, the witness `y` of the circuit
+exists, and every `y` with `y² = g(x)` — hence `±y`, whatever step 35 picks — gives a point of
+`y² = x³ + A x + B`. -/
+theorem svdw_output_on_curve {A B Z c1 c2 c3 c4 : F} (h : SvdwConsts A B Z c1 c2 c3 c4)
+    (hmul : ∀ a b : F, ¬ IsSq a → ¬ IsSq b → IsSq (a * b))
+    (hexc : IsSq (wg A B Z) ∨ IsSq (wg A B c2))
+    (u i : F)
+    (hinv : (1 - u * u * c1) * (1 + u * u * c1) ≠ 0 → i * ((1 - u * u * c1) * (1 + u * u * c1)) = 1)
+    (hzero : (1 - u * u * c1) * (1 + u * u * c1) = 0 → i = 0)
+    (e1 e2 s2 : Bool)
+    (he1 : e1 = true ↔ IsSq (wg A B (c2 - u * (1 - u * u * c1) * i * c3)))
+    (hs2 : s2 = true ↔ IsSq (wg A B (c2 + u * (1 - u * u * c1) * i * c3)))
+    (he2 : e2 = (s2 && !e1)) :
+    let tv1 := 1 - u * u * c1
+    let tv2 := 1 + u * u * c1
+    let tv4 := u * tv1 * i * c3
+    let x := svdwSelect e1 e2 (c2 - tv4) (c2 + tv4) ((tv2 * tv2 * i) * (tv2 * tv2 * i) * c4 + Z)
+    ∃ y : F, y * y = wg A B x ∧ (-y) * (-y) = wg A B x := by
+  intro tv1 tv2 tv4 x
+  have hone := svdw_one_candidate_square h hmul hexc u i hinv hzero
+  obtain ⟨y, hy⟩ := svdw_select_square A B _ _ _ e1 e2 s2 he1 hs2 he2 hone
+  exact ⟨y, hy, by rw [← hy]; grind⟩
+
+/-- **Weierstrass → Montgomery** keeps the point on the curve (hypotheses = the equations of
+`montgomery_constants_spec`). -/
+theorem weierstrass_to_montgomery_sound (A B J K t x y : F)
+    (hJ : 3 * t = J) (hA : K * K * A = 1 - 3 * t * t) (hB : K * K * K * B = 2 * t * t * t - t)
+    (hon : y * y = wg A B x) :
+    K * ((y * K) * (y * K))
+      = (x * K - t) * (x * K - t) * (x * K - t) + J * ((x * K - t) * (x * K - t)) + (x * K - t) :=
+  weierstrass_to_montgomery_on_curve A B J K t x y hJ hA hB hon
+
+/-- **Montgomery → twisted Edwards lands on the native curve for every input**: with
+`i = inv0((s+1)·t)`, the output `(i(s+1)s, i·t·(s−1))` — replaced by `w = 1` when `i = 0`
+(steps 9–10) — satisfies `−v² + w² = 1 + d v² w²`: `from_xy(..).unwrap()` never panics and the
+membership gate of `point_from_coordinates_unsafe` is satisfied, exceptional cases (`t = 0`,
+`s = −1`) included. -/
+theorem montgomery_to_edwards_sound (J K d s t i : F)
+    (hK : K = -(J + 2)) (hd : K * d = J - 2) (hK0 : K ≠ 0)
+    (hon : K * (t * t) = s * s * s + J * (s * s) + s)
+    (hinv : (s + 1) * t ≠ 0 → i * ((s + 1) * t) = 1) (hzero : (s + 1) * t = 0 → i = 0) :
+    (i ≠ 0 → EdOn d (i * (s + 1) * s) (i * t * (s - 1))) ∧
+    (i = 0 → EdOn d (i * (s + 1) * s) 1) := by
+  constructor
+  · intro hi
+    by_cases hz : (s + 1) * t = 0
+    · exact absurd (hzero hz) hi
+    · exact montgomery_to_edwards_generic J K d s t i hK hd hK0 hon (hinv hz)
+  · intro hi; rw [hi]; exact montgomery_to_edwards_exceptional d s
+
+/-- Non-vacuity over ℚ: `J = 2`, `K = −4`, `d = 0`, the Montgomery point `(1, t)` needs
+`−4t² = 4`; use instead the exceptional point `(0, 0)` (order two), which goes to `(0, 1)`. -/
+example : EdOn (0 : Rat) ((0 : Rat) * (0 + 1) * 0) 1 := montgomery_to_edwards_exceptional 0 0
+
+/-- **In-circuit uniqueness, part 1: the `is_square` bits are forced.** `is_square(x)` witnesses a
+bit and a square root of `select(bit, x, x · qnr)`; for `x ≠ 0` only one bit admits a root. -/
+theorem is_square_bit_unique (x q : F) (hq : ¬ IsSq q) (hx : x ≠ 0) (b b' : Bool)
+    (hb : if b then IsSq x else IsSq (x * q)) (hb' : if b' then IsSq x else IsSq (x * q)) :
+    b = b' := by
+  have hf := is_square_bit_forced x q hq hx
+  cases b <;> cases b' <;> simp_all
+
+/-- … and `x = 0` is the only argument on which the bit is free (both `0` and `0 · qnr` are
+squares): a gap of the `is_square` gadget, not reachable through `map_to_curve` on Jubjub by
+`svdw_gx_never_zero` + `jubjub_svdw_gx_nonzero_euler`. -/
+theorem is_square_zero_bit_free (q : F) (b : Bool) :
+    if b then IsSq (0 : F) else IsSq ((0 : F) * q) := by
+  cases b
+  · exact (is_square_zero_free q).2
+  · exact (is_square_zero_free q).1
+
+/-- **In-circuit uniqueness, part 2: `g(x1)`, `g(x2)` never vanish** (so part 1 applies to both
+`is_square` calls) when `g` has the single root `ρ` and `c3² − 4c1(c2 − ρ)²` is a non-square;
+`j = tv1 · tv3` is the inverse of `tv2`, `sgn = 1` for `x1` and `−1` for `x2`. -/
+theorem svdw_gx_never_zero (A B ρ c1 c2 c3 u j sgn : F) (hρ : wg A B ρ = 0)
+    (hdiscg : ¬ IsSq (ρ * ρ - 4 * (ρ * ρ + A)))
+    (hdisc : ¬ IsSq (c3 * c3 - 4 * (c1 * (c2 - ρ)) * (c2 - ρ)))
+    (hj : j * (1 + u * u * c1) = 1) (hs : sgn = 1 ∨ sgn = -1) :
+    wg A B (c2 - sgn * (u * j * c3)) ≠ 0 :=
+  svdw_gx_ne_zero A B ρ c1 c2 c3 u j sgn hρ hdiscg hdisc hj hs
+
+/-- **In-circuit uniqueness, part 3: the square-root witness does not matter.** The circuit
+constrains `y² = gx` only; the two admissible witnesses are `±y` (`sqrt_two_roots`) and steps
+34–35 (`sgn0(u) = sgn0(y)`, `y ↦ ±y`) return the same field element for both — the one the CPU
+reference returns. -/
+theorem svdw_sign_unique (u y : Nat) (hy : y < Gen.nativeModulus) :
+    signSelect Gen.nativeModulus u (negMod y Gen.nativeModulus) = signSelect Gen.nativeModulus u y :=
+  sign_select_unique _ u y (by decide +kernel) hy
+
+theorem svdw_sqrt_witnesses (y y' : F) (h : y * y = y' * y') : y' = y ∨ y' = -y :=
+  sqrt_two_roots y y' h
+
+/-- The model's steps 34–35 are `signSelect`. -/
+example (u y : Nat) :
+    (if jubHtc.sgn0 u == jubHtc.sgn0 y then y else jubHtc.fneg y)
+      = signSelect Gen.nativeModulus u y := rfl
+
+/-! ## `repr_J` (compressed encoding of Jubjub points) -/
+
+/-- On the native curve the ordinate determines the abscissa up to sign (`d` a non-square,
+`−1` a square): the only information `repr_J` needs besides `v` is `sgn0(u)`. -/
+theorem repr_J_abscissa_up_to_sign (d i x x' y : F) (hi : i * i = -1) (hd : ∀ t : F, t * t ≠ d)
+    (h1 : EdOn d x y) (h2 : EdOn d x' y) : x' = x ∨ x' = -x :=
+  ed_abscissa_up_to_sign d i x x' y hi hd h1 h2
+
+/-- **`repr_J` is injective**: `repr_J(u, v) = v + 2^255 · sgn0(u)` (little-endian bytes of `v`,
+top bit of the last byte = parity of `u`; `into_bytes_incircuit` builds exactly
+`byte_31 + 128 · sgn0(u)` on the 32 bytes of `v`). Two canonical pairs whose abscissas agree up to
+sign when the ordinates agree (`repr_J_abscissa_up_to_sign`: all pairs of curve points) and whose
+encodings coincide are equal — the native modulus is odd and below `2^255`. -/
+theorem repr_J_injective (u v u' v' : Nat)
+    (hu : u < Gen.nativeModulus) (hv : v < Gen.nativeModulus)
+    (hu' : u' < Gen.nativeModulus) (hv' : v' < Gen.nativeModulus)
+    (hpm : v = v' → (u' = u ∨ u' = negMod u Gen.nativeModulus))
+    (h : reprJ Gen.nativeModulus u v = reprJ Gen.nativeModulus u' v') : u = u' ∧ v = v' :=
+  reprJ_injective_aux _ u v u' v' (by decide +kernel) (by decide +kernel) hu hv hu' hv' hpm h
+
+/-- The executable model's `repr_J` (compared with `to_bytes` of the curve library on every
+map-to-curve output) is the function of the theorem. -/
+example (p u v : Nat) : HtcParams.reprJInt p u v = reprJ p u v := rfl
+
+/-- Non-vacuity: the generator and its negative have different encodings. -/
+example : reprJ Gen.nativeModulus Gen.jubGenX Gen.jubGenY
+    ≠ reprJ Gen.nativeModulus (negMod Gen.jubGenX Gen.nativeModulus) Gen.jubGenY := by
+  decide +kernel
 
 end MidnightZK.C06
